@@ -130,3 +130,74 @@ def shard_hyp_steps(args):
     col = Collector(mod.PROP)
     run_given(gen.step_case(**kw), lambda case: mod.record(col, eval_step(case)), n, seed)
     return col
+
+
+def shard_enum_stale(args):
+    """Directed three-step histories on one live running order: (1) a message of some
+    kind, (2) a one-for-one replacement of a story / item by one with a NEW id (the
+    element count does not change), (3) every message shape in which the unknown ID is
+    the *stale* ID of the element replaced in step 2.  Every step is judged."""
+    from . import gen, build as B, history
+    import warnings
+    from mosromgr.mostypes import RunningOrder, MosFile
+    modname, level, first_kind_index, max_sources = args
+    mod = _mod(modname)
+    col = Collector(mod.PROP)
+
+    def env(body, mid):
+        return B.tostring(B.envelope(body, mid))
+    sids = ['S0', 'S1', 'S2', 'S3']
+    iids = ['I0', 'I1', 'I2']
+    ro_xml = gen.ro_with_layout(sids, 'mixed', items_for={'S1': iids, 'S2': iids})
+    if level == 'story':
+        firsts = [B.ea_story_move('RO1', 'S0', ['S3']), B.story_move('RO1', ['S3', 'S0']),
+                  B.ea_story_swap('RO1', 'S0', 'S3'), B.ea_story_delete('RO1', ['ZZ']),
+                  B.story_delete('RO1', ['ZZ']), B.story_send('RO1', 'S0', body=[B.P('x')]),
+                  B.ea_story_insert('RO1', 'S0', [gen.plain_story('N7')]),
+                  B.story_insert('RO1', 'S0', [gen.plain_story('N8')]),
+                  B.ea_story_replace('RO1', 'S3', [gen.plain_story('S3', ['J5'])]),
+                  B.story_replace('RO1', 'S3', [gen.plain_story('S3', ['J6'])]),
+                  B.ready_to_air('RO1')]
+        repls = [B.story_replace('RO1', 'S1', [gen.plain_story('R1', ['J0'])]),
+                 B.ea_story_replace('RO1', 'S1', [gen.plain_story('R1', ['J0'])])]
+    else:
+        firsts = [B.ea_item_move('RO1', 'S1', 'I0', ['I2']), B.item_move_multiple('RO1', 'S1', ['I2', 'I0']),
+                  B.ea_item_swap('RO1', 'S1', 'I0', 'I2'), B.ea_item_delete('RO1', 'S1', ['ZZ']),
+                  B.item_delete('RO1', 'S1', ['ZZ']), B.item_insert('RO1', 'S1', 'I0', [B.mk_item('J7')]),
+                  B.ea_item_insert('RO1', 'S1', 'I0', [B.mk_item('J8')]),
+                  B.ea_item_replace('RO1', 'S1', 'I2', [B.mk_item('I2', slug='v2')]), B.ready_to_air('RO1')]
+        repls = [B.item_replace('RO1', 'S1', 'I1', [B.mk_item('R1', slug='new')]),
+                 B.ea_item_replace('RO1', 'S1', 'I1', [B.mk_item('R1', slug='new')])]
+    first = firsts[first_kind_index % len(firsts)]
+    for repl in repls:
+        m1, m2 = env(first, 1500), env(repl, 1600)
+        base = RunningOrder.from_string(ro_xml)
+        hist = [ro_xml]
+        for mx in (m1, m2):
+            ev = history.live_step(base, mx, hist)
+            hist.append(mx)
+            mod.record(col, ev)
+        reached = str(base)
+        state = xmlcmp.state_of(ET.fromstring(reached))
+        if level == 'story':
+            cur = [s for s, _ in state]
+            msgs = gen.enum_story_messages(cur[:4], max_sources=max_sources, unknown='S1')
+        else:
+            cur = dict(state).get('S1', [])
+            msgs = gen.enum_item_messages('S1', cur[:4], max_sources=max_sources, unknown='I1')
+        for _label, m3 in msgs:
+            # a fresh object replays steps 1-2 so that every third step starts from the same history
+            ro = RunningOrder.from_string(ro_xml)
+            with warnings.catch_warnings():
+                warnings.simplefilter('ignore')
+                for mx in (m1, m2):
+                    try:
+                        ro += MosFile.from_string(mx)
+                    except Exception:
+                        pass
+            ev = history.live_step(ro, m3, hist)
+            mod.record(col, ev)
+            col.classes['stale-reference-history'] += 1
+    col.scopes.append(f'stale references ({level} level): first message #{first_kind_index}, one-for-one replacement '
+                      f'by a new ID (plain and roElementAction), then every message shape with the stale ID as the unknown one')
+    return col
